@@ -30,14 +30,23 @@ class AsyncioRunner(BaseRunner):
         future = asyncio.run_coroutine_threadsafe(
             self._run_payload(payload), self.asyncio_loop
         )
-        return future.result()
+        result, failure = future.result()
+        if failure is not None:
+            raise failure
+        return result
 
     async def _run_payload(self, payload: Callable[[], Coroutine]):
         if self._payload_failure.done():
             # the runner is closing or has failed: a coroutine started now would
             # never be cancelled nor awaited before the event loop is closed
             raise RuntimeError(f"cannot run payload {payload} during shutdown")
-        return await payload()
+        # Hand an exception of the payload over as a value: passed through the
+        # futures as an exception, a ``TimeoutError`` is replaced by a copy and
+        # an exception that happens to be falsy is dropped altogether.
+        try:
+            return await payload(), None
+        except Exception as failure:
+            return None, failure
 
     def _setup_payload(self, payload: Callable[[], Awaitable]):
         if self._payload_failure.done():
